@@ -492,17 +492,12 @@ def run(tier, seed):
                     nontriv.add((label, json.dumps(c, sort_keys=True)))
                     if len(samples) < 2 and len(wf) == 2 and len(grabs) >= 3 and ci % 7 == 0:
                         samples.append({"workflow": label, "cfg": c, "expected_counts": exp_counts, "wires": case["fin"], "events": len(evs)})
-        # negative control of the comparator: a corrupted expectation must be noticed
-        probe = next(x for x in cases if x["err"] == "" and len(x["wf"]) == 2 and sum(1 for v in x["counts"].values() if v) >= 2)
-        res, _, _ = rec.run(lambda: qre.estimate(lambda: [build(t) for t in probe["wf"]], gate_set=closure | set(probe["cfg"]["gs"]),
-                                                 zeroed_wires=probe["cfg"]["z"], any_state_wires=probe["cfg"]["a"],
-                                                 tight_wires_budget=probe["cfg"]["tight"])())
-        got = collections.Counter()
-        for k, v in res.gate_types.items():
-            got[base_of(k)] += int(v)
-        bad = dict(probe["counts"])
-        bad[next(k for k, v in bad.items() if v)] += 1
-        if {k: v for k, v in got.items() if v} == {k: v for k, v in bad.items() if v}:
+        # negative control of the comparator (synthetic, independent of what the implementation returned)
+        probe = next(x for x in cases if x["err"] == "" and sum(1 for v in x["counts"].values() if v) >= 2)
+        good = {k: v for k, v in probe["counts"].items() if v}
+        bad = dict(good)
+        bad[next(iter(bad))] += 1
+        if good != {k: v for k, v in probe["counts"].items() if v} or good == bad:
             raise lib.MachineryError("negative control accepted by the count comparator")
         neg_cmp = 1
         tick("workflows replayed")
@@ -521,7 +516,10 @@ def run(tier, seed):
         neg.append((len(allrecs), expect))
         allrecs.append(r)
         allmeta.append(("NEG", expect, "", None))
-    src = next(r for r in traces if r["fin"]["ok"] and len(r["calls"]) >= 2)
+    src = {"kind": "est", "cfg": {"z": 2, "a": 1, "algo": 3, "tight": False}, "lb": 3, "algoexp": 3, "parts": [], "whole": [], "op": "",
+           "calls": [{"op": "grab", "n": 3, "exc": False, "z": 0, "a": 4, "t": 7}, {"op": "free", "n": 2, "exc": False, "z": 2, "a": 2, "t": 7}],
+           "fin": {"ok": True, "z": 2, "a": 2, "algo": 3, "total": 7}}           # hand-written, well-formed
+    add_neg(dict(src), "ok")
     add_neg(dict(src, fin=dict(src["fin"], a=src["fin"]["a"] + 1, total=src["fin"]["total"] + 1)), "allocation-not-accounted")
     add_neg(dict(src, fin=dict(src["fin"], total=src["fin"]["algo"] - 1)), "total-wires")
     add_neg(dict(src, lb=src["fin"]["algo"] + 1), "algo-wires-below-workflow")
@@ -531,10 +529,10 @@ def run(tier, seed):
              "calls": [{"op": "grab", "n": 2, "exc": False, "z": 0, "a": 2, "t": 2}]}, "grab-overdraw-accepted")
     add_neg({"kind": "wm", "cfg": {"z": 1, "a": 1, "algo": 0, "tight": False}, "fin": EMPTY_FIN, "lb": -1, "algoexp": -1, "parts": [], "whole": [], "op": "",
              "calls": [{"op": "free", "n": 2, "exc": False, "z": 3, "a": -1, "t": 2}]}, "negative-wires")
-    srca = next(r for r in lrecs if r["kind"] == "add" and len(r["parts"]) >= 2 and r["whole"])
-    w2 = [list(x) for x in srca["whole"]]
-    w2[0][1] += 1
-    add_neg(dict(srca, whole=w2), "additivity")
+    srca = add_record([(1, [("T", 3), ("X", 2)]), (2, [("T", 1)])], [("T", 5), ("X", 2)], op="seq")
+    add_neg(dict(srca), "ok")
+    add_neg(dict(srca, whole=[["T", 6], ["X", 2]]), "additivity")
+    add_neg(dict(srca, whole=[["T", 5]]), "additivity")
     # identical records (e.g. the two call forms of one workflow) are validated once
     uniq, slot = {}, []
     for rcd in allrecs:
@@ -600,7 +598,7 @@ def run(tier, seed):
            "samples": samples, "exhaustive": True,
            "model": {"module": "Estimator / EstimatorGen", "invariants": inv + ["Additive", "TermLaws"], "manager_histories": len(hists),
                      "workflows": len(cases), "terms": len(terms), "states": g.distinct},
-           "model_drift": dict(drift), "negative_controls_rejected": neg_cmp + len(neg),
+           "model_drift": dict(drift), "negative_controls_rejected": neg_cmp + len(neg) - 2,
            "distinct_trace_records": len(ulist), "tlc_wall_s": [round(g.wall_s, 1), round(r.wall_s, 1)], **{k: int(v) for k, v in st.items()}}
     return CheckResult(coverage=cov, violations=viol, assumptions=[
         "the replayed operators are harness-defined ResourceOperator subclasses whose decompositions are the spec's Lib table; adjoint / "
